@@ -302,6 +302,17 @@ def result_of(res, form):
             "rows": [{str(k): abst(v) for k, v in b.items() if v is not None} for b in res.bindings]}
 
 
+def _rename_iris(x, ns):
+    """the query the text denotes when its prefix resolves against ns instead of urn:x:"""
+    if isinstance(x, dict):
+        if x.get("k") == "iri" and isinstance(x.get("v"), str) and ":" not in x["v"]:
+            return dict(x, v=ns + x["v"])
+        return {k: _rename_iris(v, ns) for k, v in x.items()}
+    if isinstance(x, list):
+        return [_rename_iris(v, ns) for v in x]
+    return x
+
+
 def init_bindings(e):
     if "init" not in e:
         return None
@@ -385,9 +396,17 @@ def replay(cfg, events):
                         if e.get("prefixed"):
                             import re
                             text = "PREFIX x: <urn:x:>\n" + re.sub(r"<urn:x:([A-Za-z][A-Za-z0-9]*)>", r"x:\1", text)
+                        kw = {}
+                        if e.get("initns"):
+                            # prefix x: declared only through initNs; "alt" resolves the same text against another namespace
+                            import re
+                            text = re.sub(r"<urn:x:([A-Za-z][A-Za-z0-9]*)>", r"x:\1", text)
+                            kw["initNs"] = {"x": PFX if e["initns"] == "main" else "urn:alt:"}
+                            if e["initns"] != "main":
+                                e["q"] = q = _rename_iris(q, "urn:alt:")
                         e["text"] = text
                         form = q.get("form", "select")
-                        r = guarded(lambda: result_of(g.query(text, initBindings=init_bindings(e)), form))
+                        r = guarded(lambda: result_of(g.query(text, initBindings=init_bindings(e), **kw), form))
                     else:
                         form = e.get("form", "select")
                         r = guarded(lambda: result_of(g.query(prepared[e["id"]], initBindings=init_bindings(e)), form))
